@@ -21,7 +21,7 @@ def run(chk):
         if v:
             chk.violation(v["sig"], v["desc"], dict(kind="panic"))
             return
-        raise vlib.MachineryError("C13 driver failed:\n" + t["out"][-3500:])
+        raise vlib.driver_failed("C13 driver failed", t["out"])
     res = json.load(open(resf))
     for v in res["violations"] or []:
         if v["sig"].startswith("harness:"):
@@ -37,7 +37,7 @@ def run(chk):
         if v:
             chk.violation(v["sig"], v["desc"], dict(kind="panic"))
             return
-        raise vlib.MachineryError("C13 script driver failed:\n" + t3["out"][-3500:])
+        raise vlib.driver_failed("C13 script driver failed", t3["out"])
     res3 = json.load(open(rf3))
     for v in res3["violations"] or []:
         chk.violation(v["sig"], v["desc"], dict(kind="c13-script", detail=v))
